@@ -43,6 +43,8 @@ def main():
         json.dump(d, open(f'{dd}/property.json', 'w'), indent=1)
         open(f'{dd}/AVOID.txt', 'w').write(
             '\n'.join(avoid.get(d['id'], [])) + '\n')
+        hints = json.load(open(f'{VERIF}/tools/seed_hints.json'))
+        open(f'{dd}/HINT.txt', 'w').write(hints.get(d['id'], '') + '\n')
         subprocess.run(['git', '-C', '/repo', 'worktree', 'add', '--detach',
                         f'{dd}/wt', 'HEAD'], capture_output=True)
     t = open(f'{VERIF}/tools/seed_prompt_template.txt').read()
